@@ -28,7 +28,7 @@ from .common import WORKERS, conc_vt, tname, run_mutants
 
 PROP = "C12"
 FILTER = (r"#atom-linearity|#raw|declared-at-most-once|source-read-once|every-effect-once|#loop|#children|#total|inlined-nodes-declare-nothing|#decl\.count|#emit|"
-          r"read exactly once|read counter advances|first read raw|each value argument read exactly once")
+          r"read exactly once|read counter advances|first read raw|each value argument read exactly once|dead-arm-side-effect")
 
 MUTANTS = [
     {"name": "PureExec.il_read: DUP only from the third use on", "file": "rzilcompiler/Transformer/Pures/PureExec.py",
@@ -199,7 +199,8 @@ def gen_emit_loops(loader, check, replay_on=True):
 
     # emit_stmt_blocks: per effect, its exec operands (sorted by num_id) then the effect; concrete shapes of the statement list
     check.under_contract(loader, T.methods["emit_stmt_blocks"], irkit.C(loader, "Effect").methods["get_exec_op_list"])
-    for shape in ("1 effect, 0 exec ops", "1 effect, 2 exec ops", "2 effects sharing an exec op", "effect with empty init (Empty)"):
+    for shape in ("1 effect, 0 exec ops", "1 effect, 2 exec ops", "2 effects sharing an exec op", "effect with empty init (Empty)",
+                  "1 effect, exec ops numbered 9 and 10", "1 effect, exec ops numbered 99 and 100", "2 effects that print identically"):
         check.instances_declared += 1
 
         def setup(it, shape=shape):
@@ -238,6 +239,24 @@ def gen_emit_loops(loader, check, replay_on=True):
                 e = eff("e0", outer)
                 h.fields["write_ops"]["e0"] = e
                 order = ["p5", "p7", "e0"]
+            elif "numbered" in shape:
+                # creation ids whose decimal strings do not sort like the numbers: the inner (older) operand is declared first
+                lo = 9 if "9 and 10" in shape else 99
+                inner = pe(f"p{lo}", lo)
+                outer = pe(f"p{lo + 1}", lo + 1, a=inner)
+                inner.fields["name"], outer.fields["name"] = f"op_ADD_{lo}", f"op_MUL_{lo + 1}"
+                e = eff("e0", outer)
+                h.fields["write_ops"]["e0"] = e
+                order = [f"p{lo}", f"p{lo + 1}", "e0"]
+            elif shape.startswith("2 effects that print"):
+                # two statements with the same printed form (a repeated statement): both blocks are emitted
+                e0, e1 = eff("e0", pe("p3", 3)), eff("e1", pe("p4", 4))
+                same = lambda it_, obj, args, kwargs: "Rd = (a + b)"      # noqa: E731
+                e0.stubs["__str__"] = same
+                e1.stubs["__str__"] = same
+                h.fields["write_ops"]["e0"] = e0
+                h.fields["write_ops"]["e1"] = e1
+                order = ["p3", "e0", "p4", "e1"]
             elif shape.startswith("2 effects"):
                 sh = pe("p3", 3)
                 e0, e1 = eff("e0", sh), eff("e1", sh)
@@ -259,7 +278,7 @@ def gen_emit_loops(loader, check, replay_on=True):
                 t = emit.as_tpl(p.value)
                 tags = [a.tag for a in t.atoms() if a.kind == "init"]
                 check.ob("emit_stmt_blocks#emit.every-initialiser-once-operands-before-their-effect", shape, p.ctx.pc, tags == p.state["order"], detail=str(tags))
-    check.bounded.append("emit_stmt_blocks: four concrete statement-list shapes (the per-table loops of the other three emit functions are unbounded)")
+    check.bounded.append("emit_stmt_blocks: seven concrete statement-list shapes (the per-table loops of the other three emit functions are unbounded)")
 
 
 # ------------------------------------------------------------------------------------------ children are consumed
@@ -351,6 +370,13 @@ def gen_own(loader, check, what, replay_on=True):
     {"loops": gen_emit_loops, "children": gen_children}[what](loader, check, replay_on)
 
 
+def gen_dead_arm(loader, check, replay_on=True):
+    """'nothing that was initialised is left unused': a value-producing operation in the dead arm of a constant condition is removed
+    together with everything it registered (C06's dead-arm contract)"""
+    from . import c06
+    c06.gen_selected(loader, check, replay_on)
+
+
 def dispatch(loader, check, module=None, func=None, kwargs=None, replay_on=True):
     import importlib
     kw = dict(kwargs)
@@ -367,6 +393,7 @@ def tasks():
     ts += [("contracts.c12", "gen_own", {"what": w}) for w in ("loops", "children")]
     # argument lists of sub-routine calls: values are read exactly once, a borrowed parameter passed on goes through il_read (C08's contracts)
     ts += [("contracts.c08", "gen_task", {"what": w}) for w in ("build_arg_list", "call_text")]
+    ts += [("contracts.c12", "gen_dead_arm", {})]
     return ts
 
 
@@ -383,6 +410,7 @@ def generate_reduced(loader, check):
     from . import c08
     c08.gen_build_arg_list(loader, check, False)
     c08.gen_call_text(loader, check, False)
+    gen_dead_arm(loader, check, False)
 
 
 def run(check: Check):
